@@ -393,6 +393,9 @@ from .c02 import r3_fixed_layouts as _line_layouts              # record and fie
 from .c02 import r6_field_table as _field_table                 # column accessors read the start/length table without changing it
 from .c03 import r6_streams_and_text_ranges as _text_ranges     # untouched columns are supplied as file text
 
+from ..through_time import make_rule as _mk_tt
+_through_time = _mk_tt("C04")
+
 RULES = [
     ("C04-R6", r6_lazy_derivations),
     ("C04-R1", r1_pass_through),
@@ -404,4 +407,5 @@ RULES = [
     ("C04-R8", _line_layouts),
     ("C04-R9", _field_table),
     ("C04-R10", _text_ranges),
+    ("C04-T1", _through_time),
 ]
